@@ -37,7 +37,33 @@ TRUE_PATHS = ["s", "n", "lst", "m/k", "title", "default", "not:missing", "exists
 SEQ_PATHS = ["lst", "lst", "people", "nested", "m/lst", "elst", "s", "x", "none", "missing", "n", "default", "mixed", "mixed"]
 
 
+DEFINES = ["v s", "v n; w string:W", "global g s", "v lst", "v missing | string:dflt", "local v people; global h n", "v nothing", "x title",
+           "v string:a; global g2 string:b", "v missing; global g3 nothing", "global gg string:G; v string:uses ${gg}", "global gg2 s; w gg2",
+           "v string:L; global gl string:after ${v}", "global ga n; global gb ga; v gb", "v n; w v; global gw w", "global gx string:1; global gx string:2; v gx"]
+
+
+def gen_define_use(rnd):
+    """an element that defines names and children / a following sibling that read every one of them: what a definition
+    binds, in which order, and how long it lives, is visible in the output"""
+    d = rnd.choice(DEFINES)
+    names = [nm for _isl, nm, _ex in parse_define(d)]
+    tal = {"define": d}
+    if rnd.random() < 0.3:
+        tal["condition"] = rnd.choice(["s", "missing", "elst", names[0]])
+    if rnd.random() < 0.3:
+        tal["repeat"] = "r " + rnd.choice(["lst", "elst", "mixed"])
+    if rnd.random() < 0.3:
+        tal["attributes"] = "title " + rnd.choice(names)
+    kids = [("elem", "b", [], {"content": nm + " | string:(unset)"}, [("text", "x")]) for nm in names]
+    if rnd.random() < 0.5:
+        kids.append(("elem", "i", [("class", "c1")], {"define": rnd.choice(DEFINES), "content": rnd.choice(names)}, []))
+    after = ("elem", "u", [], {"content": "string:" + " ".join("${%s | string:-}" % nm for nm in names)}, [])
+    return ("elem", "div", [], {}, [("elem", "p", [("class", "c1")] if rnd.random() < 0.5 else [], tal, kids), after])
+
+
 def gen(rnd, depth=0):
+    if depth == 0 and rnd.random() < 0.15:
+        return gen_define_use(rnd)
     r = rnd.random()
     if depth > 3 or r < 0.28:
         return ("text", rnd.choice(["t", "x y", " ", "end.", "caf\xe9", "\n  ", "1 2 3"]))
@@ -51,19 +77,24 @@ def gen(rnd, depth=0):
     if rnd.random() < 0.62:
         if rnd.random() < 0.25:
             tal["define"] = rnd.choice(["v s", "v n; w string:W", "global g s", "v lst", "v missing | string:dflt", "local v people; global h n",
-                                        "v nothing", "x title", "v  python: 'PYTHON-ORACLE'", "v string:a; global g2 string:b", "v missing; global g3 nothing"])
+                                        "v nothing", "x title", "v  python: 'PYTHON-ORACLE'", "v string:a; global g2 string:b", "v missing; global g3 nothing",
+                                        # definitions take effect left to right, whatever the mix of local and global
+                                        "global gg string:G; v string:uses ${gg}", "global gg2 s; w gg2", "v string:L; global gl string:after ${v}",
+                                        "global ga n; global gb ga; v gb"])
         if rnd.random() < 0.3:
             tal["condition"] = rnd.choice(TRUE_PATHS) if rnd.random() < 0.7 else rnd.choice(PATHS)
         if rnd.random() < 0.35:
             tal["repeat"] = rnd.choice(["x", "y"]) + " " + rnd.choice(SEQ_PATHS)
         r2 = rnd.random()
         if r2 < 0.25:
-            tal["content"] = rnd.choice(["", "structure ", "text "]) + rnd.choice(PATHS + ["v", "w", "g", "x", "x/name"])
+            tal["content"] = rnd.choice(["", "structure ", "text "]) + rnd.choice(PATHS + ["v", "w", "g", "x", "x/name", "v", "w", "gl", "gg", "attrs/class | string:noclass"])
         elif r2 < 0.4:
             tal["replace"] = rnd.choice(["", "structure "]) + rnd.choice(PATHS + ["v", "x"])
         if rnd.random() < 0.25:
             tal["attributes"] = rnd.choice(["class s", "class nothing", "class default; id n", "href x", "title missing | string:t", "class v",
-                                            "alt title; class z", "id repeat/x/number", "href  python: 'PYTHON-ORACLE'", "title x/name | default"])
+                                            "alt title; class z", "id repeat/x/number", "href  python: 'PYTHON-ORACLE'", "title x/name | default",
+                                            # the element's own original attributes, also on later repeat passes and after children with TAL of their own
+                                            "title attrs/class", "alt attrs/class | string:none; id attrs/id | nothing", "title attrs/title | default"])
         if rnd.random() < 0.2:
             tal["omit-tag"] = rnd.choice(["", "s", "elst", "nothing", "missing", "default", "z"])
     kids = [] if tag in FORBIDDEN_END else [gen(rnd, depth + 1) for _ in range(rnd.randint(0, 3))]
